@@ -79,7 +79,7 @@ func mkTracks(n int) []Track {
 
 func scenarios(c *lib.Ctx, rng *rand.Rand) []Scenario {
 	var scs []Scenario
-	rounds := 2
+	rounds := 4
 	if c.Thorough() {
 		rounds = 12
 	}
